@@ -127,6 +127,15 @@ def t_params(a: ast.arguments) -> list:
 
 
 def t_stmt(s: ast.stmt) -> list:
+    if isinstance(s, ast.ClassDef):
+        if getattr(s, "type_params", None):
+            raise Outside("generic class")
+        if any(k.arg is None for k in s.keywords):
+            raise Outside("**kw in class keywords")
+        if any(isinstance(b, ast.Starred) for b in s.bases):
+            raise Outside("starred base")
+        return ["SClass", P(s), s.name, [t_expr(b) for b in s.bases], [["kw", k.arg, t_expr(k.value)] for k in s.keywords],
+                [t_expr(d) for d in s.decorator_list], t_stmts(s.body)]
     if isinstance(s, ast.FunctionDef):
         if s.decorator_list or s.returns is not None or s.type_comment or getattr(s, "type_params", None):
             raise Outside("decorated / annotated / generic def")
@@ -206,6 +215,12 @@ def m_oblock(b: Any) -> list:
 def m_stmt(s: Any) -> list:
     from mypy import nodes as N
     t = type(s)
+    if t is N.ClassDef:
+        if s.type_args or s.type_vars or s.removed_base_type_exprs:
+            raise Outside("generic class")
+        return ["MClassDef", MP(s), s.name, m_block(s.defs), [m_expr(b) for b in s.base_type_exprs],
+                ["opt", m_expr(s.metaclass)] if s.metaclass is not None else ["opt"],
+                [["pair", k, m_expr(v)] for k, v in s.keywords.items()], [m_expr(d) for d in s.decorators]]
     if t is N.FuncDef:
         if s.type is not None or s.unanalyzed_type is not None or s.is_coroutine or s.is_decorated or s.type_args:
             raise Outside("typed / async / decorated FuncDef")
